@@ -482,6 +482,15 @@ func (b *Built) fillState(obs *Obs) {
 				for k := 0; k < f.Len(); k++ {
 					cell = append(cell, toS(atomText(f.Index(k))))
 				}
+			} else if b.argN[ci][ai].Map {
+				var ents []string
+				for _, k := range f.MapKeys() {
+					ents = append(ents, k.String()+":"+atomText(f.MapIndex(k)))
+				}
+				sort.Strings(ents) // by code point, as the specification's SortStrs
+				for _, e := range ents {
+					cell = append(cell, toS(e))
+				}
 			} else {
 				cell = append(cell, toS(atomText(f)))
 			}
